@@ -14,6 +14,7 @@
 #include <errno.h>
 #include <inttypes.h>
 #include <unistd.h>
+#include <dirent.h>
 
 #define NV 64
 #define NO 8
@@ -138,6 +139,7 @@ int main (int argc, char **argv)
   setvbuf (stdout, NULL, _IOLBF, 0);
   snprintf (tmpdir, sizeof tmpdir, "%s", argc > 1 ? argv[1] : "/var/tmp");
   sc_init (sc_MPI_COMM_NULL, 0, 0, quiet_log, SC_LP_SILENT);
+  if (chdir (tmpdir) != 0) { fprintf (stderr, "cannot enter %s\n", tmpdir); return 2; }
   while (getline (&line, &cap, stdin) > 0) {
     int n = 0, o, ret = 0;
     char *p;
@@ -146,6 +148,17 @@ int main (int argc, char **argv)
     if (n == 0) continue;
     op = tok[0];
     if (!strcmp (op, "H")) {
+      /* every history starts with an empty file directory (the model's file system is per history); relative names
+         inside argument vectors (-J f0.ini) resolve against the same directory because it is the working directory */
+      DIR *dd = opendir (tmpdir);
+      if (dd != NULL) {
+        struct dirent *de;
+        while ((de = readdir (dd)) != NULL) {
+          if (de->d_name[0] != '.') { char *pp = path_of (de->d_name); remove (pp); }
+        }
+        closedir (dd);
+        { size_t i; for (i = 0; i < nkeep; ++i) free (keep[i]); nkeep = 0; }
+      }
       hid = atol (tok[1]);
       memset (kind, 0, sizeof kind);
       memset (ivar, 0, sizeof ivar); memset (zvar, 0, sizeof zvar); memset (dvar, 0, sizeof dvar); memset (svar, 0, sizeof svar);
